@@ -4,6 +4,7 @@ use crate::ctx::*;
 use crate::gen::*;
 use crate::refeng::*;
 use lambda_calculus::*;
+use lambda_calculus::reduction::Order;
 
 pub fn named_terms() -> Vec<Term> {
     let om = abs(app(Var(1), Var(1)));
